@@ -525,6 +525,23 @@ impl Driver for Slow {
     }
 }
 
+/// One system is *very* slow (tens of milliseconds inside `run`), everything else is instant: a
+/// dispatcher that adapts itself to measured running times gets something to adapt to.
+pub struct OneVerySlow {
+    pub target: u32,
+    pub ms: u64,
+}
+impl Driver for OneVerySlow {
+    fn gate(&self, _: &Ctx, uid: u32, g: Gate) {
+        if g == Gate::PostRun && uid == self.target {
+            std::thread::sleep(Duration::from_millis(self.ms));
+        }
+    }
+    fn name(&self) -> String {
+        format!("one-very-slow(u{}, {} ms)", self.target, self.ms)
+    }
+}
+
 /// Forced maximal overlap: the systems mapped to one rendezvous point wait for each other at
 /// `PreRun` (data already fetched). Bounded; on expiry the waiter gives up (amplifier only).
 pub struct Overlap {
